@@ -49,6 +49,8 @@ def run_laws(ctx, fs, path, laws, desc, stream, counts):
         return False
     good = True
     for (name, q), r in zip(laws, recs):
+        if r.err and r.err.startswith("compile"):
+            raise RuntimeError("law query does not compile: %s: %s" % (q, r.err))
         if r.err:
             # the documented refusal to decode (e.g. const_value of unknown signedness) aborts the whole query: nothing is decided
             counts["inconclusive"] = counts.get("inconclusive", 0) + 1
